@@ -1164,3 +1164,31 @@ CONTRACTS[U + 'random_pauli'] = dict(
                               ('forall_lemma', [('a', '0', '2 * i')], 'acq_antisym', ['gs[a]', 'gs[2 * i]', 'N']),
                               ('forall_lemma', [('a', '0', '2 * i')], 'acq_antisym', ['gs[a]', 'gs[2 * i + 1]', 'N'])])},
 )
+
+# ------------------------------------------------------------------ C18 / C02: condense = restriction of a string to its support
+LEMMAS['mask_ext'] = dict(
+    axiom='the abstract index functions of a boolean mask depend only on its entries 0..n-1 (they are defined from those entries); '
+          'evaluated natively on generated masks in every run',
+    params=[('m', 'int1'), ('m2', 'int1'), ('n', 'int')],
+    requires=['n >= 0', 'forall(c, 0, n, b2i(m[c] != 0) == b2i(m2[c] != 0))'],
+    ensures=['MaskCnt(m, n) == MaskCnt(m2, n)', 'forall(k, 0, MaskCnt(m, n), MaskIdx(m, n)[k] == MaskIdx(m2, n)[k])',
+             'forall(c, 0, n + 1, MaskPos(m, n)[c] == MaskPos(m2, n)[c])'],
+)
+_sm = 'SuppMask(g, len(g) // 2)'
+CONTRACTS[U + 'condense'] = dict(
+    params=[('g', 'int1')],
+    requires=['len(g) % 2 == 0'],
+    ensures=['len(result[0]) == MaskCnt(Repeat2(%s), len(g))' % _sm, 'len(result[1]) == MaskCnt(%s, len(g) // 2)' % _sm,
+             'forall(k, 0, len(result[0]), result[0][k] == Compress(g, Repeat2(%s), len(g))[k])' % _sm,
+             'forall(k, 0, len(result[1]), result[1][k] == MaskIdx(%s, len(g) // 2)[k])' % _sm],
+    result_term=('Compress(g, Repeat2(%s), len(g))' % _sm, 'Compress(Arange(len(g) // 2), %s, len(g) // 2)' % _sm),
+    modifies=[], returns=('int1 fresh', 'int1 fresh'),
+    loops={0: dict(var='i', invariant=['len(mask) == N', 'forall(k, 0, i, mask[k] == SuppMask(g, N)[k])', 'forall(k, i, N, mask[k] == 0)',
+                                       'forall(k, 0, N, 0 <= mask[k] <= 1)'])},
+    hints={'return': [('lemma', 'mask_ext', ['mask', 'SuppMask(g, N)', 'N']),
+                      ('assert_from', 'forall(c, 0, 2 * N, Repeat2(mask)[c] == Repeat2(SuppMask(g, N))[c])',
+                       ['forall(k, 0, N, mask[k] == SuppMask(g, N)[k])', 'N >= 0']),
+                      ('lemma', 'mask_ext', ['Repeat2(mask)', 'Repeat2(SuppMask(g, N))', '2 * N']),
+                      ('lemma', 'mask_index', ['SuppMask(g, N)', 'N']),
+                      ('lemma', 'mask_index', ['Repeat2(SuppMask(g, N))', '2 * N'])]},
+)
